@@ -128,6 +128,9 @@ def judge(part, name, key_or_prog, args, want, is_prog=False):
         stack, exc = r.stack, r.exc
     else:
         stack, exc, _ = sandbox.apply_element(key_or_prog, args, timeout=30)
+    if isinstance(exc, sandbox.CaseTimeout):
+        part.cap("backstop hit (slow is not wrong): %s" % key_or_prog)
+        return
     if exc is not None:
         ok, obs = False, "raises %s: %s" % (type(exc).__name__, str(exc)[:60])
     elif not stack:
